@@ -395,7 +395,7 @@ static void registerAll() {
     reg("GEOSBufferParams_setSingleSided_r", "bp i", "params", 2, [](Ctx& c, std::vector<Val>& a) { return rInt(GEOSBufferParams_setSingleSided_r(H, (GEOSBufferParams*) c.P(A(0)), (int) A(1).i)); });
     reg("GEOSMakeValidParams_create_r", "", "params", 3, [](Ctx& c, std::vector<Val>&) { return rPtr(MVP, GEOSMakeValidParams_create_r(H)); });
     reg("GEOSMakeValidParams_destroy_r", "mvpX", "destroy", 1, [](Ctx& c, std::vector<Val>& a) { GEOSMakeValidParams_destroy_r(H, (GEOSMakeValidParams*) c.P(A(0))); return rVoid(); });
-    reg("GEOSMakeValidParams_setMethod_r", "mvp i", "params", 2, [](Ctx& c, std::vector<Val>& a) { return rInt(GEOSMakeValidParams_setMethod_r(H, (GEOSMakeValidParams*) c.P(A(0)), (GEOSMakeValidMethods) A(1).i)); });
+    reg("GEOSMakeValidParams_setMethod_r", "mvp i01", "params", 2, [](Ctx& c, std::vector<Val>& a) { return rInt(GEOSMakeValidParams_setMethod_r(H, (GEOSMakeValidParams*) c.P(A(0)), (GEOSMakeValidMethods) A(1).i)); });
     reg("GEOSMakeValidParams_setKeepCollapsed_r", "mvp i", "params", 2, [](Ctx& c, std::vector<Val>& a) { return rInt(GEOSMakeValidParams_setKeepCollapsed_r(H, (GEOSMakeValidParams*) c.P(A(0)), (int) A(1).i)); });
 }
 #undef H
@@ -561,6 +561,7 @@ struct Gen {
                 if (cand.empty()) return false; a[k].k = 'o'; a[k].id = r.chance(50) ? cand[cand.size() - 1 - r.below(std::min<size_t>(cand.size(), 3))] : cand[r.below(cand.size())]; continue; }
             if (code == "d" || code == "dt") { a[k].k = 'd'; a[k].d = dbl(code == "dt"); }
             else if (code == "i") { a[k].k = 'i'; a[k].i = r.chance(30) ? r.range(-2, 9) : IPOOL[r.below(sizeof IPOOL / sizeof IPOOL[0])]; }
+            else if (code == "i01") { a[k].k = 'i'; a[k].i = (long) r.below(2); }   // enum-TYPED C parameter: only its enumerators (listed exclusion)
             else if (code == "iq") { a[k].k = 'i'; a[k].i = r.chance(30) ? r.range(0, 6) : QPOOL[r.below(sizeof QPOOL / sizeof QPOOL[0])]; }
             else if (code.rfind("s:", 0) == 0) { a[k].k = 's'; a[k].s = str(code.substr(2)); }
             else if (code == "n") { a[k].k = 'i'; a[k].i = k ? (a[k - 1].k == 'a' ? (long) a[k - 1].ids.size() : (long) a[k - 1].s.size()) : 0; }
